@@ -665,3 +665,111 @@ Proof.
   split; [exact (proj2 (proj2 cyc_keys_fail))|exact cyc_not_holder_free].
 Qed.
 Print Assumptions C12_no_overtake_needs_holder_free.
+
+(* ------------------------------------------------------------------------------------------
+   Appended: C12 on the property's own domain - locks acquired in a FIXED ORDER
+   (Sched/OrderInv.v, OrderPass.v, OrderThms.v: [run_ord], [reachable_ord], see the end of
+   Props/C11.v; there [ranked] is derived from reachability).
+
+   Question: is [keyed s l] (every live entry's stored key = the waiter's current effective
+   priority) an invariant for NESTED waiters on this domain (no OSetPrio executed)?
+   Answer: NO, as soon as a waiter can be cancelled.  [C12_keyed_fails_fixed_order] (finding F17;
+   computed run, reproduced on the real code: notes/C12.md).  Three locks taken in increasing
+   order only:
+     O2 (task 0, priority 0)  holds lock 2 across three sleep(0);
+     O1 (task 1, priority 5)  holds lock 1 and is queued on lock 2: future 3, key 5;
+     U  (task 2, priority 7)  holds lock 0 and is queued on lock 1 (future 4);
+     T  (task 3, priority -5) calls U.cancel() and then queues on lock 0 (held by U);
+     W2 (task 4, priority 3)  queues on lock 2 afterwards: future 8, key 3.
+   When T arrives, U's future is cancelled but U has not run its `finally` yet, so
+   PriorityTask.propagate_priority(U) finds a RUNNABLE task, reschedules it and stops: it
+   neither re-keys U's entry nor notifies O1, the owner of the lock U is still queued on.
+   effective_priority(O1) = -5 (lock 1's waiter list still contains U), but O1's entry in lock 2
+   keeps key 5.  O2's release then completes W2's future (key 3 < 5) although O1 was strictly
+   more urgent (-5 < 3) in every state in which both were waiting (states 12, 13).
+   What IS proved towards the invariant: effective priorities are local ([C12_eprio_local]);
+   release() by a task without row keeps [keyed] for all locks ([C12_keyed_release]); arrival and
+   leaving re-key the blocked holder chain ([C12_key_tracks_eprio], [C12_rekey_on_leave], above). *)
+From Asynkit Require Import Sched.OrderInv Sched.OrderPass Sched.OrderThms Sched.OrderExample
+  Sched.InheritLocal.
+
+Theorem C12_keyed_fails_fixed_order :
+  let s0 := init_st false 0 [] [LPrio; LPrio; LPrio] [] 0 in
+  (* the run is in the domain, to its end *)
+  run_ok s0 kacts /\ run_ne s0 kacts /\ run_ord s0 kacts /\
+  kst11 = tr s0 kacts 11 /\ kst12 = tr s0 kacts 12 /\ kst13 = tr s0 kacts 13 /\
+  reachable_ord kst12 /\ ranked kst12 /\
+  (* state 11: T has arrived; U's future 4 is cancelled, U is still queued on lock 1; O1 already
+     has effective priority -5, its entry in lock 2 has key 5; W2 is not queued yet *)
+  fstate_ (getf kst11 4) = FCancelled /\ lwt (getl kst11 1) = [(4, 2)] /\
+  arr (lpq (getl kst11 2)) = [mkE 5%Q 0 3] /\ Qred (effective_priority kst11 1) = (-5)%Q /\
+  (* state 12: W2 queued with key 3; both entries live; effective priorities of O1, W2 *)
+  arr (lpq (getl kst12 2)) = [mkE 3%Q 1 8; mkE 5%Q 0 3] /\ lwt (getl kst12 2) = [(3, 1); (8, 4)] /\
+  fdone kst12 3 = false /\ fdone kst12 8 = false /\
+  map (fun t => Qred (effective_priority kst12 t)) [1; 4] = [(-5)%Q; 3%Q] /\
+  ~ keyed kst12 2 /\
+  (* O1's entry is `before` W2's (strictly more urgent) ... *)
+  before kst12 2 (mkE 5%Q 0 3) (mkE 3%Q 1 8) /\
+  (* ... but action 12 (O2's release) grants lock 2 to W2 while O1 keeps waiting *)
+  fstate_ (getf kst13 8) = FResult 1 /\ fstate_ (getf kst13 3) = FPending /\
+  In 3 (objs kst13 2) /\ In 8 (objs kst13 2).
+Proof.
+  cbv zeta.
+  destruct k_facts as (A1 & A2 & A3 & A4 & B1 & B2 & B3 & B4 & B5 & C1 & C2 & C3 & C4).
+  split; [exact krun_ok|]. split; [exact krun_ne|]. split; [exact krun_ord|].
+  split; [vm_compute; reflexivity|]. split; [vm_compute; reflexivity|]. split; [vm_compute; reflexivity|].
+  split; [exact kst12_reachable_ord|]. split; [exact kst12_ranked|].
+  split; [exact A1|]. split; [exact A2|]. split; [exact A3|]. split; [exact A4|].
+  split; [exact B1|]. split; [exact B2|]. split; [exact B3|]. split; [exact B4|]. split; [exact B5|].
+  split; [exact k_not_keyed|].
+  split; [left; vm_compute; reflexivity|].
+  split; [exact C1|]. split; [exact C2|]. split; [exact C3|exact C4].
+Qed.
+Print Assumptions C12_keyed_fails_fixed_order.
+
+(* Effective priorities are local.  Two states with acyclic wait-for graphs (rank functions
+   within the recursion budget) and a set D of "dirty" tasks that is closed upwards (a waiter of
+   a clean task is clean): if every clean task has the same priority and the same waiters (up
+   to order) in both states, it has the same effective priority in both. *)
+Theorem C12_eprio_local :
+  forall (s s' : st) (rank rank' : nat -> nat) (D : nat -> Prop),
+    (forall w t, waits_on s w t -> rank w < rank t) -> (forall t, rank t <= efuel s) ->
+    (forall w t, waits_on s' w t -> rank' w < rank' t) -> (forall t, rank' t <= efuel s') ->
+    (forall x, ~ D x -> tprio (gett s' x) = tprio (gett s x)) ->
+    (forall x, ~ D x -> Permutation (waiters_of s' x) (waiters_of s x)) ->
+    (forall x w, ~ D x -> In w (waiters_of s x) -> ~ D w) ->
+    forall x, ~ D x ->
+      (effective_priority s' x == effective_priority s x)%Q /\ (wprio s' x == wprio s x)%Q.
+Proof.
+  intros s s' rank rank' D H1 H2 H3 H4 H5 H6 H7 x Hx. split.
+  - exact (eprio_local s s' rank rank' D H1 H2 H3 H4 H5 H6 H7 x Hx).
+  - exact (wprio_local s s' rank rank' D H1 H2 H3 H4 H5 H6 H7 x Hx).
+Qed.
+Print Assumptions C12_eprio_local.
+
+(* "A holder releases (it is running, not queued)": PriorityLock.release() by a task t that has
+   no row in any waiter table keeps [keyed] for EVERY lock - only t's own effective priority
+   changes and t is nobody's waiter.  [WIx ne X R s] is the second invariant in the form that
+   holds at intermediate states of a task step (Sched/WaitInv.v; [WInv ne s] = [WIx ne _ (0,[]) s]
+   between actions), [ranked s] holds on the fixed-order domain. *)
+Theorem C12_keyed_release :
+  forall ne X R s t l,
+    WIx ne X R s -> ranked s -> (forall l0 f, ~ In (f, t) (lwt (getl s l0))) ->
+    (forall l0, keyed s l0) -> forall l0, keyed (fst (release_p s t l)) l0.
+Proof. exact keyed_release. Qed.
+Print Assumptions C12_keyed_release.
+
+(* Non-vacuity of [C12_keyed_release]: the state [est] of [C11_ordered_example] (chain B -> A -> C,
+   nested waiters): C = task 0 holds lock 1 and has no row, every key is current.  The THEOREM
+   gives [keyed] for all locks after C's release of lock 1; C's effective priority falls back
+   from the inherited -2 to its own 7 while the keys of the waiters stay correct. *)
+Theorem C12_keyed_release_example :
+  (forall l0, keyed est l0) /\ (forall l0 f, ~ In (f, 0) (lwt (getl est l0))) /\ ranked est /\
+  (forall l0, keyed (fst (release_p est 0 1)) l0) /\
+  Qred (effective_priority est 0) = (-2)%Q /\
+  Qred (effective_priority (fst (release_p est 0 1)) 0) = 7%Q.
+Proof.
+  destruct est_release_keyed as (A & B & C).
+  exact (conj est_keyed (conj est_C_no_row (conj est_ranked (conj A (conj B C))))).
+Qed.
+Print Assumptions C12_keyed_release_example.
